@@ -105,6 +105,20 @@ pub const SIGNEDNESS: [Signedness; 3] = [Signedness::Unsigned, Signedness::Genui
 pub const DENIAL_TYPES: [RecordType; 7] =
     [RecordType::SOA, RecordType::NS, RecordType::A, RecordType::NSEC, RecordType::NSEC3, RecordType::DS, RecordType::DNSKEY];
 
+/// New owner of a re-owned genuine RRset, relative to the upstream query it is served for.
+#[derive(Clone, Copy, Debug, PartialEq, Eq, Hash, PartialOrd, Ord)]
+pub enum ReTarget {
+    /// the name of the upstream query
+    QName,
+    /// the apex of a signed child zone of the answering zone (a secure delegation point)
+    DelegationPoint,
+    /// `www.<apex>`: an existing signed name
+    ExistingName,
+    /// the query name cut to one label below the apex of the answering zone
+    NextCloser,
+}
+pub const RE_TARGETS: [ReTarget; 4] = [ReTarget::QName, ReTarget::DelegationPoint, ReTarget::ExistingName, ReTarget::NextCloser];
+
 #[derive(Clone, Copy, Debug, PartialEq, Eq, Hash, PartialOrd, Ord)]
 pub enum Move {
     /// answer := one attacker record of the query type at the query name, no RRSIG; authority
@@ -130,6 +144,11 @@ pub enum Move {
     /// another order: `perm` = index into the non-identity permutations (all 5 for three records;
     /// reverse / rotations / neighbour swaps beyond that). Nothing is signed over the order.
     Reorder { sigs: bool, perm: u8 },
+    /// replace-by-denial with a GENUINE signed RRset re-owned: the `src`-th signed RRset (in
+    /// `reown_sources` order) of the zone that answers this query (`parent` = false) or of its
+    /// parent zone, with its genuine RRSIGs, RDATA and signatures untouched, the owner of all its
+    /// records and RRSIGs rewritten to `target`; served alone in the authority (or answer) section
+    Reowned { parent: bool, src: u16, target: ReTarget, answer: bool },
     /// answer emptied, rcode NXDOMAIN, authority := the zone's genuine SOA with its RRSIGs plus a
     /// forged, unsigned NSEC at the apex that spans the whole zone (apex -> apex)
     ForgedApexNsecWithGenuineSoa,
@@ -173,6 +192,9 @@ impl Fault {
                 Move::ForgedApexNsecWithGenuineSoa => "replace-by-forged-apex-nsec+genuine-soa".into(),
                 Move::ReplayWildcard { with_authority } => format!("replay-genuine-wildcard(authority-kept={with_authority})"),
                 Move::Reorder { sigs, perm } => format!("reorder-{}(perm {perm})", if *sigs { "rrsigs" } else { "rrset" }),
+                Move::Reowned { parent, src, target, answer } => {
+                    format!("reowned-genuine-rrset({},#{src},{target:?},{})", if *parent { "parent-zone" } else { "own-zone" }, if *answer { "answer" } else { "authority" })
+                }
             },
         }
     }
@@ -226,6 +248,8 @@ impl Fault {
                 Move::ForgedApexNsecWithGenuineSoa => "forged-apex-nsec+genuine-soa".into(),
                 Move::ReplayWildcard { .. } => "replay-genuine-wildcard".into(),
                 Move::Reorder { sigs, .. } => if *sigs { "reorder-rrsigs".into() } else { "reorder-rrset".into() },
+                // the type class of the source is added by `Script::scene_tag`
+                Move::Reowned { .. } => "reowned-genuine-rrset".into(),
             },
         }
     }
@@ -240,6 +264,12 @@ impl Fault {
                     Move::Reorder { sigs, perm } => {
                         v["sigs"] = json!(sigs);
                         v["perm"] = json!(perm);
+                    }
+                    Move::Reowned { parent, src, target, answer } => {
+                        v["parent"] = json!(parent);
+                        v["src"] = json!(src);
+                        v["target"] = json!(format!("{target:?}"));
+                        v["answer"] = json!(answer);
                     }
                     Move::Denial { rtype, owner, signed } => {
                         v["rtype"] = json!(u16::from(*rtype));
@@ -284,6 +314,9 @@ impl Fault {
             Move::Rcode(v["rcode"].as_u64()? as u8)
         } else if mv == "replace-by-forged-apex-nsec+genuine-soa" {
             Move::ForgedApexNsecWithGenuineSoa
+        } else if mv.starts_with("reowned-genuine-rrset") {
+            let target = RE_TARGETS.into_iter().find(|o| format!("{o:?}") == v["target"].as_str().unwrap_or(""))?;
+            Move::Reowned { parent: v["parent"].as_bool()?, src: v["src"].as_u64()? as u16, target, answer: v["answer"].as_bool()? }
         } else if mv.starts_with("reorder-") {
             Move::Reorder { sigs: v["sigs"].as_bool().unwrap_or(false), perm: v["perm"].as_u64()? as u8 }
         } else if mv.starts_with("replay-genuine-wildcard") {
@@ -512,6 +545,56 @@ impl Script {
         }
     }
 
+    /// The signed RRsets (owner, type) of zone `zi` in a fixed order.
+    pub fn reown_sources(&self, zi: usize) -> Vec<(Name, RecordType)> {
+        let z = &self.hier.h.zones[zi];
+        let mut v: Vec<(Name, RecordType)> = z
+            .published
+            .iter()
+            .filter(|r| r.record_type() != RecordType::RRSIG)
+            .filter(|r| z.published.iter().any(|s| is_rrsig_covering(s, &r.name, r.record_type())))
+            .map(|r| (r.name.clone(), r.record_type()))
+            .collect();
+        v.sort_by(|a, b| (a.0.to_ascii(), u16::from(a.1)).cmp(&(b.0.to_ascii(), u16::from(b.1))));
+        v.dedup();
+        v
+    }
+
+    /// (source zone, (owner, type) of the source RRset, new owner) of a `Reowned` move at `q`
+    pub fn reowned_parts(&self, q: &Query, parent: bool, src: u16, target: ReTarget) -> Option<(usize, (Name, RecordType), Name)> {
+        let h = &self.hier.h;
+        let zq = h.zone_for(&q.name, q.query_type)?;
+        let apex = h.zones[zq].origin.clone();
+        let zs = if parent {
+            if apex.is_root() {
+                return None;
+            }
+            h.deepest(&apex.base_name())?
+        } else {
+            zq
+        };
+        if !h.zones[zs].signed() {
+            return None;
+        }
+        let source = self.reown_sources(zs).get(src as usize)?.clone();
+        let new_owner = match target {
+            ReTarget::QName => q.name.clone(),
+            ReTarget::DelegationPoint => h.zones.iter().find(|z| z.signed() && z.origin != apex && apex.zone_of(&z.origin) && z.origin.num_labels() == apex.num_labels() + 1)?.origin.clone(),
+            ReTarget::ExistingName => Name::from_ascii("www").unwrap().append_domain(&apex).ok()?,
+            ReTarget::NextCloser => {
+                let want = apex.num_labels() as usize + 1;
+                if (q.name.num_labels() as usize) <= want {
+                    return None;
+                }
+                q.name.trim_to(want)
+            }
+        };
+        if new_owner == source.0 {
+            return None;
+        }
+        Some((zs, source, new_owner))
+    }
+
     /// Is this move applicable at this query in this hierarchy (so that the enumeration does not
     /// count no-ops)? Mirrors `apply_move`.
     pub fn move_applicable(&self, q: &Query, mv: &Move) -> bool {
@@ -578,6 +661,26 @@ impl Script {
             }
             Move::Rcode(c) => {
                 m.metadata.response_code = ResponseCode::from(0, *c);
+                true
+            }
+            Move::Reowned { parent, src, target, answer } => {
+                let Some((zs, (so, st), new_owner)) = self.reowned_parts(q, *parent, *src, *target) else { return false };
+                if dry {
+                    return true;
+                }
+                let mut recs: Vec<Record> = self.hier.h.zones[zs].published.iter().filter(|r| r.name == so && (r.record_type() == st || is_rrsig_covering(r, &so, st))).cloned().collect();
+                for r in recs.iter_mut() {
+                    r.name = new_owner.clone();
+                }
+                m.additionals.clear();
+                m.metadata.response_code = ResponseCode::NoError;
+                if *answer {
+                    m.answers = recs;
+                    m.authorities.clear();
+                } else {
+                    m.answers.clear();
+                    m.authorities = recs;
+                }
                 true
             }
             Move::Reorder { sigs, perm } => {
@@ -836,7 +939,7 @@ impl Tamper for Script {
 // enumeration
 
 /// All single faults at one upstream query whose honest answer is `honest`.
-pub fn singles_at(script_probe: &Script, q: &Query, honest: &Message) -> Vec<Fault> {
+pub fn singles_at(script_probe: &Script, q: &Query, honest: &Message, thorough: bool) -> Vec<Fault> {
     let k = key_of(&q.name, q.query_type);
     let mut out = vec![];
     for (sec, recs) in [(0u8, &honest.answers), (1u8, &honest.authorities)] {
@@ -870,6 +973,45 @@ pub fn singles_at(script_probe: &Script, q: &Query, honest: &Message) -> Vec<Fau
         for owner in OWNER_SELS {
             for signed in SIGNEDNESS {
                 moves.push(Move::Denial { rtype, owner, signed });
+            }
+        }
+    }
+    // genuine signed RRsets re-owned. Quick: the NSEC/NSEC3 RRsets whose owner is a wildcard (the
+    // ones a signature can be "reconstructed" for under another owner), the apex NSEC/NSEC3 /
+    // the first NSEC3, and the SOA, into the authority section. Thorough: every NSEC/NSEC3 RRset
+    // and one RRset of every other type, into the authority and into the answer section.
+    for parent in [false, true] {
+        let Some((zs, _, _)) = (0..64u16).find_map(|i| RE_TARGETS.into_iter().find_map(|t| script_probe.reowned_parts(q, parent, i, t))) else { continue };
+        let sources = script_probe.reown_sources(zs);
+        let apex = script_probe.hier.h.zones[zs].origin.clone();
+        let mut seen_types: Vec<RecordType> = vec![];
+        let mut first_nsec3 = true;
+        for (i, (so, st)) in sources.iter().enumerate() {
+            let is_nsec = matches!(st, RecordType::NSEC | RecordType::NSEC3);
+            let pick = if is_nsec {
+                let first3 = *st == RecordType::NSEC3 && std::mem::replace(&mut first_nsec3, false);
+                thorough || so.is_wildcard() || *so == apex || first3
+            } else {
+                let first_of_type = !seen_types.contains(st);
+                seen_types.push(*st);
+                first_of_type && (thorough || *st == RecordType::SOA)
+            };
+            if !pick {
+                continue;
+            }
+            let mut owners: Vec<Name> = vec![];
+            for target in RE_TARGETS {
+                let Some((_, _, no)) = script_probe.reowned_parts(q, parent, i as u16, target) else { continue };
+                if owners.contains(&no) {
+                    continue;
+                }
+                owners.push(no);
+                for answer in [false, true] {
+                    if answer && !thorough {
+                        continue;
+                    }
+                    out.push(Fault::Resp { q: k.clone(), mv: Move::Reowned { parent, src: i as u16, target, answer } });
+                }
             }
         }
     }
